@@ -352,6 +352,77 @@ fn table_regime(ctx: &Ctx, name: &str, cap0: usize, hashes: &[u8], depth: usize,
     rep
 }
 
+/// (a') without any merging: every sequence of exactly `depth` table calls over the hash alphabet,
+/// each replayed on a fresh table and checked step by step against the set model. The BFS above
+/// de-duplicates on the slot dump and skips calls that leave the dump unchanged; state kept
+/// anywhere else (a "last hit" shortcut, a counter that steers the next growth) would be merged
+/// away there. Sequences are partitioned by their first two calls.
+fn unmerged_table_regime(ctx: &Ctx, name: &str, cap0: usize, hashes: &[u8], depth: usize, semantic: bool) -> Report {
+    fn acts_after(hist: &[Act], hashes: &[u8], semantic: bool) -> Vec<Act> {
+        let mut acts: Vec<Act> = Vec::new();
+        if semantic {
+            for &h in hashes.iter() {
+                acts.push(Act::InsertByHash(h));
+            }
+            for &h in hashes.iter() {
+                acts.push(Act::GetByHash(h));
+            }
+        } else {
+            let nelem = hist.iter().filter(|a| matches!(a, Act::Insert(_))).count();
+            for &h in hashes.iter() {
+                acts.push(Act::Insert(h));
+            }
+            for e in 0..nelem {
+                acts.push(Act::Lookup(e as u8));
+            }
+        }
+        acts
+    }
+    fn go(rep: &mut Report, cap0: usize, hashes: &[u8], semantic: bool, hist: &mut Vec<Act>, depth: usize, ctx: &Ctx) -> bool {
+        if hist.len() == depth {
+            let (l, r) = replay_history(cap0, hist);
+            rep.transitions += depth as u64;
+            rep.traces += 1;
+            if let Err((i, e)) = r {
+                rep.violation(
+                    "table-model-divergence",
+                    format!("step {} of {:?} (unmerged sequences): {}", i, hist, e),
+                    json!({"kind": "table", "cap0": cap0, "history": hist.iter().map(act_json).collect::<Vec<_>>(), "slots_at_failure": l.dump()}),
+                );
+                return false;
+            }
+            return !ctx.over_time();
+        }
+        for a in acts_after(hist, hashes, semantic) {
+            hist.push(a);
+            let ok = go(rep, cap0, hashes, semantic, hist, depth, ctx);
+            hist.pop();
+            if !ok {
+                return false;
+            }
+        }
+        true
+    }
+    let mut prefixes: Vec<Vec<Act>> = Vec::new();
+    for a in acts_after(&[], hashes, semantic) {
+        for b in acts_after(&[a], hashes, semantic) {
+            prefixes.push(vec![a, b]);
+        }
+    }
+    let mut rep = par_run(ctx, &prefixes, |_, p| {
+        let mut r = Report::default();
+        r.exhaustive = true;
+        let mut h = p.clone();
+        if !go(&mut r, cap0, hashes, semantic, &mut h, depth.max(2), ctx) && r.n_violations == 0 {
+            r.cap(format!("wall-clock cap inside the unmerged table sequences ({})", name));
+        }
+        r
+    });
+    rep.add_extra(&format!("{}_unmerged_sequences", name), rep.traces);
+    rep.bound(name, json!({"initial_capacity": cap0, "hash_alphabet": hashes, "sequence_length": depth, "merging": "none", "mode": if semantic {"equality by hash (semantic stores)"} else {"equality by element"}}));
+    rep
+}
+
 // ---------------------------------------------------------------------------------------------
 // (c) default capacity, deterministic, no hook involved
 
@@ -533,6 +604,13 @@ pub fn run(ctx: &Ctx) -> Report {
         rep.merge(r);
     }
     rep.distinct_nontrivial = rep.states;
+    {
+        let (d4, ds) = (ctx.tier.pick(7, 8), ctx.tier.pick(6, 7));
+        let r = unmerged_table_regime(ctx, "U4", 2, &h4, d4, false);
+        rep.merge(r);
+        let r = unmerged_table_regime(ctx, "US4", 2, &h4, ds, true);
+        rep.merge(r);
+    }
     rep.evaluations = rep.transitions;
     rep.sample(json!({"table_history": [act_json(&Act::Insert(0)), act_json(&Act::Insert(1)), act_json(&Act::Lookup(0)), act_json(&Act::Lookup(1))], "initial_capacity": 2}));
     rep.merge(default_capacity_scenario());
